@@ -262,6 +262,13 @@ func (x *Exec) modularCall(st *State, fr *Frame, ci *ssa.Call, c *FuncContract, 
 	}
 	env := &Env{x: x, st: st, vars: vars, pkg: pkg}
 	short := shortFn(name)
+	for _, l := range c.lets {
+		v, err := env.EvalAny(l.expr, nil)
+		if err != nil {
+			panic(abortErr{fmt.Sprintf("%s:%d: let %s: %v", l.file, l.line, l.text, err)})
+		}
+		vars[l.name] = v
+	}
 	for i, r := range c.requires {
 		t, err := env.EvalBool(r.expr)
 		if err != nil {
@@ -271,13 +278,6 @@ func (x *Exec) modularCall(st *State, fr *Frame, ci *ssa.Call, c *FuncContract, 
 		oname := fmt.Sprintf("pre:%s>%s#%d:%s", x.targetName(), short, i+1, txt)
 		x.oblige(st, oname, "pre", "precondition "+r.text+" of "+name, ci.Pos(), t)
 		st.assume(t)
-	}
-	for _, l := range c.lets {
-		v, err := env.EvalAny(l.expr, nil)
-		if err != nil {
-			panic(abortErr{fmt.Sprintf("%s:%d: let %s: %v", l.file, l.line, l.text, err)})
-		}
-		vars[l.name] = v
 	}
 	pre := st.clone()
 	// havoc
@@ -296,8 +296,8 @@ func (x *Exec) modularCall(st *State, fr *Frame, ci *ssa.Call, c *FuncContract, 
 							panic(r)
 						}
 					}()
-					for _, p := range x.modLocs(penv, e) {
-						st.havocLoc(x, p, short)
+					for _, ml := range x.modLocs(penv, e) {
+						x.havocMod(st, ml, short)
 					}
 				}()
 			}
